@@ -198,9 +198,9 @@ def generate(rng: random.Random, tier: str) -> dict:
                 legacy.append({"line": i, "close": rng.random() < 0.5})
     exit_after = rng.choice([None, None, None, None, 0, 0, 1, 30])   # the child exits right after its last write (output may still be unread)
     prelude = None
-    if rng.random() < 0.06:
+    if rng.random() < 0.1:
         # an earlier session over the SAME client object that ended in the middle of a line
-        prelude = {"tail": rng.choice(['{"jsonrpc":"2.0","method":"notifications/mess', '{"jsonrpc":"2.0","id":1,"result":{"t":"\u00e9', "garbage without newline"])}
+        prelude = {"pending_streams": rng.random() < 0.5, "tail": rng.choice(['{"jsonrpc":"2.0","method":"notifications/mess', '{"jsonrpc":"2.0","id":1,"result":{"t":"\u00e9', "garbage without newline"])}
     # the consumer only listens to notifications: it closes the main read stream right after entering, the session stays open
     close_read = bool(burst) and rng.random() < 0.5
     pv = rng.choice([None, None, "2025-06-18", "2025-03-26"])
@@ -367,6 +367,16 @@ def execute(scn: dict) -> dict:
                 client.set_protocol_version(scn["protocol_version"])
             if scn.get("prelude"):
                 async with client:
+                    if scn["prelude"].get("pending_streams"):
+                        # requests of that earlier session that were still waiting for their answers (per-request streams registered,
+                        # never answered) when it ended; the new session's server happens to use the same ids
+                        for ln_ in scn["lines"]:
+                            if ln_["kind"] in ("response", "error") and "text" in ln_:
+                                try:
+                                    client.new_request_stream(str(json.loads(ln_["text"]).get("id")))
+                                except Exception:
+                                    pass
+                        sim.probe("earlier_session_left_per_request_streams_pending")
                     await anyio.sleep(0.05)
                 st["prelude_done"] = True
                 sim.probe("earlier_session_ended_mid_line")
